@@ -424,7 +424,7 @@ def colourise(hist, texts, variant=0):
                 out.append("\x1b[31m-" + R + "\x1b[31m" + t[1:] + R)
         elif c == "plus":
             body = t[1:]
-            stripped = body.rstrip(" \t")
+            stripped = body.rstrip(" \t\r")       # (the CR of a CRLF file is a whitespace error for git)
             ws = body[len(stripped):]
             if variant // 2 % 2 == 0:
                 s = "\x1b[32m+" + stripped + R if not ws else "\x1b[32m+" + stripped + R + "\x1b[41m" + ws + R
